@@ -11,8 +11,8 @@ scratch=$(mktemp -d /tmp/mutant.XXXXXX)
 trap 'rm -rf "$scratch"' EXIT
 git -C /repo archive HEAD | tar -x -C "$scratch"
 case "$what" in
-  revert:*) c="${what#revert:}"; ( cd /repo && git show "$c" ) | ( cd "$scratch" && patch -R -p1 -s ) || { echo "PATCH-FAILED $what"; exit 3; } ;;
-  *) ( cd "$scratch" && patch -p1 -s < "$what" ) || { echo "PATCH-FAILED $what"; exit 3; } ;;
+  revert:*) c="${what#revert:}"; ( cd /repo && git show "$c" ) | ( cd "$scratch" && patch -R -p1 -s --no-backup-if-mismatch ) || { echo "PATCH-FAILED $what"; exit 3; } ;;
+  *) ( cd "$scratch" && patch -p1 -s --no-backup-if-mismatch < "$what" ) || { echo "PATCH-FAILED $what"; exit 3; } ;;
 esac
 ( cd "$scratch" && go build ./... ) || { echo "MUTANT-DOES-NOT-COMPILE $what"; exit 3; }
 if ( cd "$scratch" && go test -count=1 . >/dev/null 2>&1 ); then ut=pass; else ut=FAIL; fi
